@@ -452,22 +452,38 @@ func (n *Node) FetchPyramid(root boson.Address) error {
 	return n.CI.VerifFindPyramid(ctx, root, n.peer.Addr)
 }
 
+// getLog records the addresses a reader asks the netstore for, in order.
+type getLog struct {
+	storage.Storer
+	mu  sync.Mutex
+	log []boson.Address
+}
+
+func (g *getLog) Get(ctx context.Context, mode storage.ModeGet, addr boson.Address) (boson.Chunk, error) {
+	g.mu.Lock()
+	g.log = append(g.log, addr)
+	g.mu.Unlock()
+	return g.Storer.Get(ctx, mode, addr)
+}
+
 // FetchChunks reads data through the netstore under the file's root context with the peer as
 // retrieval target, exactly as the download handler does after Init: manifest lookup with
 // ModeGetRequest, then a joiner over the entry.  Only the byte ranges [from,to) given are read
-// (a partial download).  Returns the bytes read per range.
-func (n *Node) FetchChunks(root boson.Address, path string, ranges [][2]int64) ([][]byte, error) {
+// (a partial download).  Returns the bytes read per range and the chunk addresses the manifest
+// lookup and the joiner asked the netstore for, in order.
+func (n *Node) FetchChunks(root boson.Address, path string, ranges [][2]int64) ([][]byte, []boson.Address, error) {
 	if n.peer == nil {
-		return nil, errNoPeer
+		return nil, nil, errNoPeer
 	}
+	g := &getLog{Storer: n.NS}
 	ctx := sctx.SetTargets(sctx.SetRootHash(context.Background(), root), n.peer.Addr.String())
-	ref, err := entryRef(ctx, n.NS, storage.ModeGetRequest, root, path)
+	ref, err := entryRef(ctx, g, storage.ModeGetRequest, root, path)
 	if err != nil {
-		return nil, err
+		return nil, g.log, err
 	}
-	j, size, err := joiner.New(ctx, n.NS, storage.ModeGetRequest, ref)
+	j, size, err := joiner.New(ctx, g, storage.ModeGetRequest, ref)
 	if err != nil {
-		return nil, err
+		return nil, g.log, err
 	}
 	var out [][]byte
 	for _, r := range ranges {
@@ -481,11 +497,13 @@ func (n *Node) FetchChunks(root boson.Address, path string, ranges [][2]int64) (
 		}
 		buf := make([]byte, to-from)
 		if _, err := j.ReadAt(buf, from); err != nil && err != io.EOF {
-			return out, err
+			return out, g.log, err
 		}
 		out = append(out, buf)
 	}
-	return out, nil
+	g.mu.Lock()
+	defer g.mu.Unlock()
+	return out, g.log, nil
 }
 
 // GetUnderRoot reads one chunk through the netstore with root as file context (what every
